@@ -399,6 +399,35 @@ for _nm, _tier in ((2, "quick"), (37, "quick"), (150, "thorough")):
                      "bodies of generate_initial_trees() and assign_codes() cut in the solver build (arbitrary return value, no effects): neither writes the dummy table; the native replay runs them"],
         outside=["blocks that start with two or more tables and end up using one (same code path from the renumbering loop on, not run here)", "the clustering passes themselves"])
 
+# ------------------------------------------------------------------------------- C02/C01: transmit() read back by a strict bit-level inspector
+TX_ASM = ["pre-state: arbitrary encoder state within the invariant its producers establish (2..6 tables, lengths 1..20, codes fit their length, sentinel symbol costs no bits, tree_pad 0..3, "
+          "announced size = sum of the field widths and a whole number of bytes)",
+          "encoder_state's sort bucket array and selector arrays shrunk textually, its union turned into a struct (CBMC 6.11 loses field updates of union members; transmit() only uses one member)",
+          "one group of 50 symbols (block of 3 MTF symbols, sentinel fill)"]
+TX_OUT = ["blocks with more than one group / more than 3 selectors", "delta runs longer than 3 steps (same two-bit step repeated)", "that encode()/generate_prefix_code() establish the pre-state (assign_opt_*, dummy_table_*, mtf_* cover parts)",
+          "agreement with libbz2 itself (not encodable); the inspector is written from the format"]
+def tx_ob(name, tier, part, defs, to, bounds, wit, loops45):
+    add(name, "h_transmit.c", "h_transmit", {"C02": tier, "C01": tier}, defines=["-DPART=%d" % part] + defs,
+        cbmc=["--unwind", "52", "--unwindset", "transmit.3:6,transmit.4:%d,transmit.5:%d,transmit.6:6,transmit.7:8,transmit.9:3" % (loops45, loops45)],
+        backend="kissat", timeout=to, mem_gb=6, extra_src=["crctab.c"], shrink="encoder_bucket",
+        functions=["src/encode.c:transmit (PUTBIT/SEND/DUMP macros)"], witnesses=["inspected"] + wit,
+        bounds=bounds, assumptions=TX_ASM, outside=TX_OUT)
+tx_ob("transmit_map_sel", "quick", 1, ["-DBMASK=0x8101u"], 900,
+      "symbol map: buckets 0, 7 and 15 arbitrary (others empty); table count 2..6 and 1..3 selectors symbolic; CRC and primary index fields symbolic; table lengths concrete",
+      ["all_selectors", "six_tables", "all_buckets_used", "only_last_bucket"], 3)
+tx_ob("transmit_map_all", "thorough", 1, [], 3000,
+      "symbol map: all 16 buckets arbitrary; table count 2..6 and 1..3 selectors symbolic; CRC and primary index fields symbolic; table lengths concrete",
+      ["all_selectors", "six_tables", "all_buckets_used", "only_last_bucket"], 3)
+tx_ob("transmit_lengths_a3", "quick", 2, ["-DAS=3", "-DSEL0=1"], 1200,
+      "two tables over a 3-symbol alphabet with symbolic code lengths 1..20 (adjacent lengths differ by at most 3), tree_pad 0..3 symbolic, tables sent in swapped order",
+      ["pad3_on_length3", "pad3_on_length4", "pad3_on_length20", "both_extremes"], 5)
+tx_ob("transmit_lengths_a4", "thorough", 2, ["-DAS=4", "-DSEL0=0"], 3000,
+      "two tables over a 4-symbol alphabet with symbolic code lengths 1..20 (adjacent lengths differ by at most 3), tree_pad 0..3 symbolic",
+      ["pad3_on_length3", "pad3_on_length4", "pad3_on_length20", "both_extremes"], 5)
+tx_ob("transmit_codes", "quick", 3, [], 900,
+      "the group's table: symbolic lengths 1..20 (adjacent lengths differ by at most 3) and symbolic code bits; the block's 2 MTF symbols before end-of-block symbolic",
+      ["longest_codes", "shortest_code"], 5)
+
 # ------------------------------------------------------------------------------- expand.c scheduler: rely/guarantee steps (conservation)
 RGX_ASM = ["codec entry points replaced by stubs returning any result their interface allows; heap helpers replaced by a bag with correct head extraction (real helpers: heap_ops)",
            "RG: at every lock acquisition counters, queue sizes and the parser token are arbitrary subject to INV of h_expand_rg.c (rely); C12 assumed",
